@@ -8,6 +8,10 @@ parameter (DESIGN.md §2.1), the driver passes `Amgcl.rsqrt`.
 
 All matrices live in flat buffers addressed with explicit strides, as in the C++ code:
 `A[i*row_stride + j*col_stride]`.
+
+The members `tau`, `f`, `q` of the object are `std::vector`s that are only ever `resize`d, so they carry values from one
+call to the next.  The `…S` functions thread them explicitly (`Obj`); `compute` / `factorize` / `solve` are the calls on a
+default-constructed object and `runSeq` is a sequence of calls on one object (op `direct_qr_seq`).
 -/
 namespace Amgcl
 namespace QRModel
@@ -42,21 +46,43 @@ def applyReflector (m n : Nat) (V : Array K) (vi vs : Nat) (tau : K) (C : Array 
     let C := C.setIfInBounds ia (C.getD ia 0 - s)
     (List.range' 1 (m - 1)).foldl (fun C j => C.setIfInBounds (ia + j * rs) (C.getD (ia + j * rs) 0 - V.getD (vi + j * vs) 0 * s)) C) C
 
-/-- `compute(rows, cols, row_stride, col_stride, A)` (ZGEQR2): returns the buffer (R above, reflectors below the
-diagonal) and `tau` -/
-def compute (sqrt : K → K) (m n rs cs : Nat) (A : Array K) : Array K × Array K :=
+/-- `std::vector<value_type>::resize(k)`: truncation, or growth by value-initialised (zero) elements; the surviving
+elements keep their values -/
+def resizeZ (a : Array K) (k : Nat) : Array K := Array.ofFn (n := k) (fun i => a.getD i.val 0)
+
+/-- the members of a `QR` object that survive from one call to the next: `tau`, `f`, `q` (`std::vector`s that are only ever
+`resize`d).  `r` points into the caller's buffer, which the model passes explicitly; `m`, `n` and the strides are only read by
+the accessors `R(i,j)` / `Q(i,j)`, which the model takes as arguments. -/
+structure Obj (K : Type) where
+  tau : Array K
+  f   : Array K
+  q   : Array K
+
+/-- a default-constructed object -/
+def Obj.fresh : Obj K := ⟨#[], #[], #[]⟩
+
+/-- `compute(rows, cols, row_stride, col_stride, A)` (ZGEQR2) on an object whose member `tau` holds `tau0`: returns the
+buffer (R above, reflectors below the diagonal) and the member `tau` (`tau.resize(k)`, then `tau[i] = …` for `i < k`) -/
+def computeS (sqrt : K → K) (m n rs cs : Nat) (A : Array K) (tau0 : Array K) : Array K × Array K :=
   let k := min m n
+  if k = 0 then (A, tau0) else
   (List.range k).foldl (fun (st : Array K × Array K) i =>
     let ii := i * (rs + cs)
     let (t, A) := genReflector sqrt (m - i) st.1 ii (ii + rs) rs
-    let A := if i + 1 < n then applyReflector (m - i) (n - i - 1) A ii rs t A (ii + cs) rs cs else A
-    (A, st.2.push t)) (A, #[])
+    let tau := st.2.setIfInBounds i t
+    let A := if i + 1 < n then applyReflector (m - i) (n - i - 1) A ii rs (tau.getD i 0) A (ii + cs) rs cs else A
+    (A, tau)) (A, resizeZ tau0 k)
 
-/-- `factorize(rows, cols, row_stride, col_stride, A)` (ZUNG2R): returns the buffer, `tau` and `q` -/
-def factorize (sqrt : K → K) (m n rs cs : Nat) (A : Array K) : Array K × Array K × Array K :=
-  let (A, tau) := compute sqrt m n rs cs A
+/-- `compute` on a fresh object -/
+def compute (sqrt : K → K) (m n rs cs : Nat) (A : Array K) : Array K × Array K :=
+  computeS sqrt m n rs cs A #[]
+
+/-- `factorize(rows, cols, row_stride, col_stride, A)` (ZUNG2R) on the object `o`: returns the buffer and the object
+(`q.resize(m*n)` keeps what an earlier call left in `q`) -/
+def factorizeS (sqrt : K → K) (m n rs cs : Nat) (A : Array K) (o : Obj K) : Array K × Obj K :=
+  let (A, tau) := computeS sqrt m n rs cs A o.tau
   let k := min m n
-  let q : Array K := Array.replicate (m * n) 0
+  let q : Array K := resizeZ o.q (m * n)
   -- columns k..n-1
   let q := (List.range m).foldl (fun q i =>
     (List.range' k (n - k)).foldl (fun q j => q.setIfInBounds (i * rs + j * cs) (if i = j then 1 else 0)) q) q
@@ -68,29 +94,36 @@ def factorize (sqrt : K → K) (m n rs cs : Nat) (A : Array K) : Array K × Arra
     let q := (List.range i).foldl (fun q j => q.setIfInBounds (j * rs + ic) 0) q
     let q := q.setIfInBounds ii (1 - t)
     (List.range' (i + 1) (m - (i + 1))).foldl (fun q j => q.setIfInBounds (j * rs + ic) (- t * A.getD (j * rs + ic) 0)) q) q
-  (A, tau, q)
+  (A, { o with tau := tau, q := q })
+
+/-- `factorize` on a fresh object: returns the buffer, `tau` and `q` -/
+def factorize (sqrt : K → K) (m n rs cs : Nat) (A : Array K) : Array K × Array K × Array K :=
+  let (A, o) := factorizeS sqrt m n rs cs A Obj.fresh
+  (A, o.tau, o.q)
 
 /-- `R(i,j)` -/
 def getR (A : Array K) (rs cs i j : Nat) : K := if j < i then 0 else A.getD (i * rs + j * cs) 0
 /-- `Q(i,j)` -/
 def getQ (q : Array K) (rs cs i j : Nat) : K := q.getD (i * rs + j * cs) 0
 
-/-- `solve(rows, cols, row_stride, col_stride, A, b, x, computed = false)`: returns `x` -/
-def solve (sqrt : K → K) (rows cols rs cs : Nat) (A b : Array K) : Array K :=
-  let f : Array K := Array.ofFn (n := rows) (fun i => b.getD i 0)
+/-- `solve(rows, cols, row_stride, col_stride, A, b, x, computed = false)` on the object `o`: returns `x` and the object
+(`f.resize(rows); std::copy(b, b + rows, f.begin())`) -/
+def solveS (sqrt : K → K) (rows cols rs cs : Nat) (A b : Array K) (o : Obj K) : Array K × Obj K :=
+  let f : Array K := (List.range rows).foldl (fun f i => f.setIfInBounds i (b.getD i 0)) (resizeZ o.f rows)
   if rows ≥ cols then
-    let (A, tau) := compute sqrt rows cols rs cs A
+    let (A, tau) := computeS sqrt rows cols rs cs A o.tau
     let f := (List.range cols).foldl (fun f i =>
       applyReflector (rows - i) 1 A (i * (rs + cs)) rs (tau.getD i 0) f i 1 1) f
     let x : Array K := Array.ofFn (n := cols) (fun i => f.getD i 0)
-    (List.range cols).reverse.foldl (fun x i =>
+    let x := (List.range cols).reverse.foldl (fun x i =>
       let rii := A.getD (i * (rs + cs)) 0
       if rii = 0 then x else
       let x := x.setIfInBounds i ((1 / rii) * x.getD i 0)
       (List.range i).foldl (fun x j => x.setIfInBounds j (x.getD j 0 - A.getD (i * cs + j * rs) 0 * x.getD i 0)) x) x
+    (x, { o with tau := tau, f := f })
   else
     -- A[i] = adjoint(A[i]) is the identity for real scalars; QR of the transposed matrix via swapped strides
-    let (A, tau) := compute sqrt cols rows cs rs A
+    let (A, tau) := computeS sqrt cols rows cs rs A o.tau
     let f := (List.range rows).foldl (fun f i =>
       let rii := A.getD (i * (rs + cs)) 0
       if rii = 0 then f else
@@ -98,8 +131,30 @@ def solve (sqrt : K → K) (rows cols rs cs : Nat) (A b : Array K) : Array K :=
       (List.range' (i + 1) (rows - (i + 1))).foldl (fun f j =>
         f.setIfInBounds j (f.getD j 0 - A.getD (i * cs + j * rs) 0 * f.getD i 0)) f) f
     let x : Array K := Array.ofFn (n := cols) (fun i => if i.val < rows then f.getD i.val 0 else 0)
-    (List.range rows).reverse.foldl (fun x i =>
+    let x := (List.range rows).reverse.foldl (fun x i =>
       applyReflector (cols - i) 1 A (i * (cs + rs)) cs (tau.getD i 0) x i 1 1) x
+    (x, { o with tau := tau, f := f })
+
+/-- `solve` on a fresh object: returns `x` -/
+def solve (sqrt : K → K) (rows cols rs cs : Nat) (A b : Array K) : Array K :=
+  (solveS sqrt rows cols rs cs A b Obj.fresh).1
+
+/-- one call on a reused object: `factorize` (result: the factorised buffer and the member `q`) or `solve` (result: `x`) -/
+inductive Call (K : Type) where
+  | factorize (m n rs cs : Nat) (A : Array K)
+  | solve (rows cols rs cs : Nat) (A b : Array K)
+
+/-- a sequence of calls on ONE object, starting from a default-constructed one: the results in order.  For `factorize` the
+result is `(buffer, q)`, for `solve` it is `(x, #[])`. -/
+def runSeq (sqrt : K → K) (calls : List (Call K)) : List (Array K × Array K) :=
+  (calls.foldl (fun (st : Obj K × List (Array K × Array K)) c =>
+    match c with
+    | .factorize m n rs cs A =>
+      let (F, o) := factorizeS sqrt m n rs cs A st.1
+      (o, (F, o.q) :: st.2)
+    | .solve rows cols rs cs A b =>
+      let (x, o) := solveS sqrt rows cols rs cs A b st.1
+      (o, (x, #[]) :: st.2)) (Obj.fresh, [])).2.reverse
 
 end QRModel
 end Amgcl
